@@ -130,6 +130,8 @@ class C08(flow.Spec):
             if not done:
                 # not finished within |cs|+1 calls: force a failing verdict
                 parts = ["chk_chunks"] + head + ["0"]
+            else:
+                parts += t[4 + 2 * n:5 + 2 * n + m]          # the limit schedule: <m> {limit}
             return " ".join(parts)
         if case.startswith("range "):
             _, s, e, k = case.split()
@@ -140,6 +142,7 @@ class C08(flow.Spec):
             for b in bs:
                 a, bb = b.split("-")
                 parts += [a, bb]
+            parts.append(k)
             return " ".join(parts)
         return None
 
